@@ -31,6 +31,10 @@ def run_variant(v, jobs):
     try:
         shutil.copytree(os.path.join(REPO, "andes"), os.path.join(tmp, "andes"),
                         ignore=shutil.ignore_patterns("__pycache__", "*.pyc"))
+        if v.get("patch"):
+            pr0 = subprocess.run("patch -p1 -s -f --no-backup-if-mismatch -d %s < %s" % (tmp, v["patch"]), shell=True, capture_output=True, text=True)
+            if pr0.returncode != 0:
+                return dict(v=v, status="stale", detail="patch does not apply: %s" % (pr0.stdout + pr0.stderr)[-200:], wall=0)
         for rel, old, new in v["edits"]:
             p = os.path.join(tmp, rel)
             with open(p) as f:
